@@ -20,7 +20,7 @@ pub struct ArenaDef {
 pub const ARENAS: &[ArenaDef] = &[
     ArenaDef { name: "slot-tie", code: "0,0,0,0,0,2,1,0,0,0,0,0;0.0.0.1,0.1.1.1,0.0.3.2", why: "two-track slot, binding maximalDistance, back-to-back tie at zero shunting, one trip needing two vehicles" },
     ArenaDef { name: "two-types-scarce-depot", code: "3,0,0,0,2,1,1,0,0,0,0,0;0.0.0.1,1.0.0.1,0.1.2.1", why: "two vehicle types, one depot of capacity 1 (overflow depot in use), one slot" },
-    ArenaDef { name: "limits-forbid", code: "2,3,1,1,0,1,1,0,0,0,0,0;0.0.0.3,0.1.2.1,0.0.3.1", why: "type limit 2 and segment limit 1, minimal shunting 300 s, dead-heads forbidden" },
+    ArenaDef { name: "limits-forbid", code: "2,3,1,1,0,1,1,0,0,1,0,0;0.0.0.3,0.1.2.1,0.0.3.1", why: "type limit 2 and segment limit 1, minimal shunting 300 s, dead-heads forbidden, seated demand binding (seats, not capacity, decide the vehicles needed)" },
     ArenaDef { name: "slow-deadheads-overlap-slot", code: "0,0,0,0,4,4,1,2,0,0,0,0;0.0.0.1,0.1.1.1,0.0.3.1", why: "dead-heads slower than a service trip (non-transitive reachability), slot tying with the trips, two depots of capacity 1" },
     ArenaDef { name: "non-metric-three-locations", code: "0,0,2,0,7,3,1,3,3,0,0,0;0.0.0.1,0.1.1.2,0.0.3.1", why: "three locations with a non-metric dead-head matrix, two slots, idle-dominant costs, dead-head shunting" },
 ];
